@@ -567,6 +567,113 @@ def across_restart(binary, res, rng):
         srv.cleanup()
 
 
+# probes for the busy-sweeper scenario: (type, create argv, probe argv, reply that means "absent")
+BUSY_PROBES = [
+    ("list", [b"RPUSH", "K", b"a"], [b"LLEN", "K"], 0), ("list", [b"RPUSH", "K", b"a"], [b"LRANGE", "K", b"0", b"-1"], []),
+    ("list", [b"RPUSH", "K", b"a"], [b"LINDEX", "K", b"0"], None), ("hash", [b"HSET", "K", b"f", b"v"], [b"HLEN", "K"], 0),
+    ("hash", [b"HSET", "K", b"f", b"v"], [b"HGET", "K", b"f"], None), ("set", [b"SADD", "K", b"a"], [b"SCARD", "K"], 0),
+    ("zset", [b"ZADD", "K", b"1", b"a"], [b"ZCARD", "K"], 0), ("zset", [b"ZADD", "K", b"1", b"a"], [b"ZSCORE", "K", b"a"], None),
+    ("string", [b"SET", "K", b"v"], [b"TYPE", "K"], Status(b"none")), ("string", [b"SET", "K", b"v"], [b"PTTL", "K"], -2),
+    ("string", [b"SET", "K", b"v"], [b"TTL", "K"], -2), ("string", [b"SET", "K", b"v"], [b"PERSIST", "K"], 0),
+    ("string", [b"SET", "K", b"v"], [b"STRLEN", "K"], 0), ("string", [b"SET", "K", b"v"], [b"GET", "K"], None),
+    ("string", [b"SET", "K", b"v"], [b"EXISTS", "K"], 0), ("list", [b"RPUSH", "K", b"a"], [b"TYPE", "K"], Status(b"none")),
+    ("stream", [b"XADD", "K", b"1-1", b"f", b"v"], [b"XLEN", "K"], 0), ("set", [b"SADD", "K", b"a"], [b"SISMEMBER", "K", b"a"], 0),
+]
+
+
+def busy_sweeper(binary, res, rng, nbulk=160000, nprobe=6000):
+    """The sweeper deletes a shard's batch of due keys under that shard's write lock; with ~10k due keys per
+    shard the lock is held for many milliseconds, sixteen times per pass. Commands addressed to the locked
+    shard wait - and what they see afterwards must still respect every deadline that had passed when they
+    were sent, including the deadlines that passed after the sweeper's scan (those keys are not in its
+    batch, only the access path can hide them)."""
+    srv = server.Server(binary).start()
+    try:
+        c = srv.client(timeout=120)
+        t0 = time.monotonic()
+        due = t0 + 8.0                       # the moment (client clock) at which the bulk falls due
+        i = 0
+        while i < nbulk:
+            T = int((due - time.monotonic()) * 1000)
+            if T < 300:
+                break
+            c.pipeline([[b"SET", b"bulk:%d" % j, b"x", b"PX", b"%d" % T] for j in range(i, min(nbulk, i + 4000))])
+            i += 4000
+        res.count("busy_sweeper_bulk_keys", i)
+        # probe keys: deadlines spread evenly over the 2.4 s after `due` (one sweeper pass starts within 1 s
+        # of it and takes a good part of a second); small batches keep the acknowledgement brackets narrow
+        probes = []                          # (latest possible deadline, key, probe argv, absent reply, label)
+        span = 2.4
+        j = 0
+        while j < nprobe:
+            batch = []
+            cmds = []
+            s = time.monotonic()
+            for q in range(j, min(nprobe, j + 16)):
+                typ, create, probe, absent = BUSY_PROBES[q % len(BUSY_PROBES)]
+                k = b"pk:%d" % q
+                T = int((due + span * q / nprobe - s) * 1000)
+                if T < 50:
+                    continue
+                cmds.append(sub(create, k))
+                cmds.append([b"PEXPIRE", k, b"%d" % T])
+                batch.append((T, k, sub(probe, k), absent, "%s/%s" % (typ, probe[0].decode())))
+            if cmds:
+                c.pipeline(cmds)
+                r = time.monotonic()
+                for T, k, probe, absent, label in batch:
+                    probes.append((r + T / 1000.0, k, probe, absent, label))
+            j += 16
+        probes.sort(key=lambda x: x[0])
+        p_start = c.cmd("VERIF", "SWEEPER", "PASSES")
+        nxt = 0
+        sent = 0
+        late = 0
+        longest_wait = 0.0
+        stalled = 0
+        while nxt < len(probes) and time.monotonic() < due + span + 1.5:
+            now = time.monotonic()
+            ready = []
+            while nxt < len(probes) and probes[nxt][0] < now - 0.0002 and len(ready) < 8:
+                ready.append(probes[nxt])
+                nxt += 1
+            if not ready:
+                time.sleep(0.0002)
+                continue
+            s1 = time.monotonic()            # every probe of this batch is sent after its key's latest possible deadline
+            out = c.pipeline([p[2] for p in ready])
+            w = time.monotonic() - s1
+            longest_wait = max(longest_wait, w)
+            if w > 0.004:
+                stalled += 1
+            for (ub, k, probe, absent, label), got in zip(ready, out):
+                sent += 1
+                res.evaluations += 1
+                if got != absent:
+                    late += 1
+                    res.violation("late/busy-sweeper/" + label,
+                                  "%s sent %.1f ms after the latest possible deadline of %s (TTL acknowledged before; sweeper busy deleting %d bulk keys, "
+                                  "this batch of %d probes took %.1f ms) answered %s instead of %s" % (
+                                      resp.show(probe), (s1 - ub) * 1000, resp.show(k), i, len(ready), w * 1000, resp.show(got, 60), resp.show(absent)),
+                                  replay={"kind": "check", "check": "C02"})
+                    if late >= 3:
+                        break
+            if late >= 3:
+                break
+        passes = c.cmd("VERIF", "SWEEPER", "PASSES") - p_start
+        left = c.cmd("DBSIZE")
+        res.count("busy_sweeper_probes", sent)
+        res.count("busy_sweeper_probe_batches_that_waited_over_4ms", stalled)
+        res.extra["busy_sweeper_longest_probe_wait_ms"] = round(longest_wait * 1000, 1)
+        res.cell("busy-sweeper", "probes-waited-on-a-locked-shard" if stalled else "no-probe-ever-waited")
+        res.cell("busy-sweeper", "passes-during-probing>=1" if passes >= 1 else "no-pass-during-probing")
+        if sent < nprobe // 2 and not late:
+            res.inconclusive.append("busy sweeper: only %d of %d probes could be placed" % (sent, nprobe))
+        c.close()
+    finally:
+        srv.cleanup()
+
+
 def worker(wseed, binary, budget_s, idx):
     rng = util.rng_for(wseed, "C02")
     res = Result()
@@ -575,6 +682,11 @@ def worker(wseed, binary, budget_s, idx):
             across_restart(binary, res, rng)
         except (Closed, Timeout, RuntimeError) as e:
             res.inconclusive.append("across-restart scenario: %r" % (e,))
+    if idx == 6:
+        try:
+            busy_sweeper(binary, res, rng)
+        except (Closed, Timeout, RuntimeError) as e:
+            res.inconclusive.append("busy-sweeper scenario: %r" % (e,))
     srv = server.Server(binary).start()
     try:
         t_end = time.time() + budget_s
@@ -632,7 +744,7 @@ def run(tier):
                        "passes), extension, shortening, RENAME carries it; B: sweeper parked between collect and delete (sync point) while "
                        "a client re-creates / renames onto / appends to the collected keys; C: expiry-index dump, disagreements followed "
                        "to the client boundary; D: 40 keys of all types with TTLs in a late database behind 120k filler keys, SAVE or BGSAVE, "
-                       "kill, restart: deadlines unmoved within the two-clock bracket, keys that died during the downtime absent; thorough: 90 s expire/re-create/rename workload against a ThreadSanitizer build (report blocks "
+                       "kill, restart: deadlines unmoved within the two-clock bracket, keys that died during the downtime absent; E: busy sweeper - 160k keys falling due at once keep the sweeper inside each shard's write lock for 10-20 ms, 6000 probe keys of all types with deadlines every 0.4 ms are probed once each right after their latest possible deadline (a command that waited for the locked shard must still see them absent); thorough: 90 s expire/re-create/rename workload against a ThreadSanitizer build (report blocks "
                        "counted from the child's log); cell = (phase, family, command, type)" % len(AFTER), t0,
                        extra_cov={"decisive_probes": dec},
                        assumptions=["client and server share CLOCK_MONOTONIC; probes whose bracket straddles the deadline interval are don't-care",
